@@ -10,4 +10,6 @@ const msgIDPreset = false
 
 func presetMsgID(v int32) {}
 
+func bumpMsgID(delta int32) {}
+
 func idgenCheck(t *testing.T) {}
